@@ -28,22 +28,23 @@ func Seq() int64 { return globalSeq.Add(1) }
 
 // Request is what a backend received on one connection.
 type Request struct {
-	Seq        int64
-	Backend    string
-	Method     string
-	Target     string // request-target bytes as received
-	Proto      string
-	HeaderRaw  string      // raw header block (without request line), as received
-	Headers    [][2]string // in arrival order, names as received
-	Body       []byte
-	BodySHA    string
-	Chunked    bool
-	ReadErr    string
-	Conn       net.Conn
-	be         *Backend
-	Wrote      []byte
-	clientSaw  chan int
-	closedSeen atomic.Bool
+	Seq              int64
+	Backend          string
+	Method           string
+	Target           string // request-target bytes as received
+	Proto            string
+	HeaderRaw        string      // raw header block (without request line), as received
+	Headers          [][2]string // in arrival order, names as received
+	Body             []byte
+	BodySHA          string
+	Chunked          bool
+	ReadErr          string
+	Conn             net.Conn
+	be               *Backend
+	Wrote            []byte
+	clientSaw        chan int
+	closedSeen       atomic.Bool
+	delayBeforeAfter time.Duration
 }
 
 func (r *Request) Header(name string) string {
@@ -96,6 +97,9 @@ type Behaviour struct {
 	DeclaredLen int
 	// OnDone is called when the backend has finished with this connection
 	OnDone func()
+	// DelayBeforeAfter sleeps between the last written byte and the After action (lets the peer read
+	// what was written before a reset can discard it)
+	DelayBeforeAfter time.Duration
 }
 
 func OK(body string) Behaviour {
@@ -407,6 +411,7 @@ func rst(c net.Conn) {
 }
 
 func (b *Backend) act(c net.Conn, req *Request, bh Behaviour) {
+	req.delayBeforeAfter = bh.DelayBeforeAfter
 	w := func(p []byte) bool {
 		n, err := c.Write(p)
 		req.Wrote = append(req.Wrote, p[:n]...)
@@ -522,6 +527,9 @@ func (b *Backend) act(c net.Conn, req *Request, bh Behaviour) {
 }
 
 func (b *Backend) after(c net.Conn, req *Request, how string) {
+	if d := req.delayBeforeAfter; d > 0 {
+		time.Sleep(d)
+	}
 	switch how {
 	case "rst":
 		rst(c)
